@@ -89,6 +89,7 @@ class VC:
     tag2: int = 0
     j1: Optional[jsonmodel.A] = None       # polymorphic JSON column
     j2: Optional[jsonmodel2.A] = None      # a serialisable class of the same short name from another module
+    x: Optional[VX] = None                 # parsed BEFORE back: what x reaches is met through x first
     back: Optional[VA] = None
     m: Optional[VM] = None
     peers: List[VA] = field(default_factory=list)
@@ -118,6 +119,33 @@ class VN(VM):
     extra: int = 0
 
 
+@dataclass(eq=False)
+class VX:
+    """Alternatively mapped through a mapping class that keeps the collection under ANOTHER name (animals) than the
+    constructor argument (pets)."""
+    label: str = ""
+    pets: List[VA] = field(default_factory=list)
+
+
+@dataclass(eq=False)
+class VY(VX):
+    """A normally mapped subclass of the alternatively mapped VX: it can take `pets` only from the reconstructed parent."""
+    extra: int = 0
+
+
+@dataclass
+class VXMapping(AlternativeMapping[VX]):
+    label: str
+    animals: List[VA]
+
+    @classmethod
+    def create_instance(cls, obj: T):
+        return cls(obj.label, obj.pets)
+
+    def create_from_dao(self) -> T:
+        return VX(self.label, self.animals)
+
+
 @dataclass
 class VMMapping(AlternativeMapping[VM]):
     label: str
@@ -131,4 +159,4 @@ class VMMapping(AlternativeMapping[VM]):
         return VM(self.label, self.ref)
 
 
-MAPPED = [VA, VB, VC, VW, VM, VN]
+MAPPED = [VA, VB, VC, VW, VM, VN, VX, VY]
